@@ -5,6 +5,7 @@ here for the same universe, three ways, and handed to TLC row by row.
 """
 import json
 import os
+import re
 
 from . import common
 from .common import Verdict, Scratch, run_tlc, MachineryError
@@ -12,7 +13,7 @@ from .common import Verdict, Scratch, run_tlc, MachineryError
 SYMS = ["$", "<", ">"]
 IDS = [-1] + list(range(13))
 PRES = ["", "-", "=", "#", ":"]
-WFS = {"none": "", "scalar": "|2.5|", "list": "|1 0.5 3|"}
+WFS = {"none": "", "scalar": "|2.5|", "list": "|1 0.5 3|", "zero": "|0|", "zlist": "|0 0 0|"}
 
 
 def key(sym, i, pre, wf):
@@ -98,7 +99,7 @@ def run(tier):
         if inv in ("Symmetric", "EmptyBondsNothing", "WeightIndependent", "IffStatement", "NonVacuous"):
             v.violation(f"C03:model-theorem-{inv}", f"the specification itself violates {inv}\n" + r.tail())
         else:
-            print(r.tail(60))
+            print("\n".join(l for l in r.out.splitlines() if not re.match(r"^(State \d+:|i = \d+|\s*$)", l))[-3000:])
             raise MachineryError("TLC did not complete on CompatCheck")
     stats = {}
     for rec in r.printed:
@@ -134,7 +135,7 @@ def run(tier):
     }
     v.assumptions = [
         "the empty descriptor [] cannot carry id or weight (the constructor rejects '[1]'), so it appears with the five prefixes only: "
-        "universe = 3*14*5*3 + 5 = 635 descriptors, 403 225 ordered pairs, all enumerated",
+        "universe = 3*14*5*5 + 5 = 1055 descriptors (weight forms: none, scalar, list, zero, all-zero list), 1 113 025 ordered pairs, all enumerated",
         f"empty descriptors in the token-built relation come from: {how_empty}",
         "the prefix ':' is read as bond order 1.5, '-' and none as 1 (as the code and SMILES do)",
     ]
